@@ -7,16 +7,19 @@ func init() {
 		ID: "C08", Level: "exploration", Floor: 100000,
 		Rule: "a case = one history over {register (duplicate when already tracked), validate, connect, advance 4m/7m/3h/4h, sweep, look up} executed from an empty registry on the real " +
 			"RegistrationManager with an executable reference map alongside; evaluations = histories executed; a history is non-trivial when at least one sweep in it had a tracked " +
-			"registration to decide on; distinct_nontrivial = distinct (operation-kind sequence, keep/expire decision counts) among those",
+			"registration to decide on; distinct_nontrivial = distinct (operation-kind sequence, keep/expire decision counts) among those; " +
+			"handler stage: a case = (wrapping transport, where the client pauses inside its first flight, registration unused/used, what happens during the pause) run through the real handleNewTCPConn with covert listeners as dial recorders",
 		Assumptions: []string{
 			"time is simulated by back-dating registrationTime of every timeout record in whole minutes; all ages are whole minutes, an age exactly on a limit accepts either outcome, a history that takes more than 30 s of real time is not judged",
 			"the reference expires registrations only at a sweep (the statement's 'after a clean-up sweep'); a registration past its lifetime that has not been swept yet may be present or absent, and may or may not still match",
 			"a duplicate delivery does not renew the lifetime (the code and the statement's 'younger than' agree)",
+			"handler stage: a registration past its lifetime that no sweep has visited is counted, not judged; a live registration's connection that is not proxied is 'inconclusive' when the handler's own 5-10 s real-time deadline may be the reason",
 			"the detector announcements are replaced by counters (registerForDetector / updateInDetector are fields meant for that); the detector side is C10",
 		},
 		Stages: []Stage{
 			{Name: "exhaustive", Pkg: "./pkg/station/lib", Run: "^TestVerifC08Exhaustive$", Drivers: []string{"lib"}, Exports: []string{"cdtls"}, TimeoutQ: 10 * time.Minute, TimeoutT: 60 * time.Minute},
 			{Name: "random", Pkg: "./pkg/station/lib", Run: "^TestVerifC08Random$", Drivers: []string{"lib"}, Exports: []string{"cdtls"}, TimeoutQ: 10 * time.Minute, TimeoutT: 60 * time.Minute},
+			{Name: "handler", Dir: "cmd/application", Pkg: ".", Run: "^TestVerifC08Handler$", Drivers: []string{"app"}, Exports: []string{"lib"}, TimeoutQ: 10 * time.Minute, TimeoutT: 40 * time.Minute},
 		},
 	})
 }
